@@ -1616,7 +1616,9 @@ func cvRegistryRoundTrip(c *Ctx) {
 	for _, l := range cvLocs {
 		cases = append(cases, struct{ in, want any }{l, l})
 	}
-	for _, raw := range []json.RawMessage{json.RawMessage("{\"a\":1}"), json.RawMessage("[]"), json.RawMessage("0")} {
+	for _, raw := range []json.RawMessage{json.RawMessage("{\"a\":1}"), json.RawMessage("[]"), json.RawMessage("0"),
+		// a raw message is bytes: leading and trailing JSON whitespace (what json.Encoder writes) is part of it
+		json.RawMessage("{\"a\":1}\n"), json.RawMessage(" [1, 2] "), json.RawMessage("\t"), json.RawMessage("\n\n"), json.RawMessage("null ")} {
 		r := raw
 		cases = append(cases, struct{ in, want any }{r, r}) // (*json.RawMessage is not a registered type)
 	}
